@@ -434,3 +434,23 @@ package boltz
 //@   modifies *
 
 // A child-store strategy that does not handle an update has nothing to report.
+
+// A child store persists its parent's fields through the parent context. Whatever goes wrong while writing them has to
+// land in the holder the caller looks at after PersistEntity: the parent bucket wrapper shares the child's error holder.
+//@ func (*PersistContext).GetParentContext
+//@   props C07
+//@   nosafety
+//@   waive immutable the parent bucket wrapper was made by GetEntityBucket for this very call and is not yet known to anyone else
+//@   modifies *
+//@   ensures[same-transaction-same-entity] result != nil && result.MutateContext == old(ctx.MutateContext) && result.Id == old(ctx.Id) && result.IsCreate == old(ctx.IsCreate) && result.FieldChecker == old(ctx.FieldChecker)
+//@   ensures[errors-on-the-parent's-fields-reach-the-caller's-holder] result.Bucket != nil ==> result.Bucket.ErrorHolderImpl == old(ctx.Bucket.ErrorHolderImpl)
+//@ func (Store).GetParentStore
+//@   pure
+//@ func (*BaseStore).GetParentStore
+//@   props C07
+//@   pure
+//@   ensures result == store.parent
+//@ func (*TypedBucket).Tx
+//@   props C07
+//@   nosafety
+//@   pure
